@@ -90,7 +90,10 @@ def canonicalize_metadata(
             value = value.tolist()
         if isinstance(value, dict | list | tuple):
             value = canonicalize_metadata(value)
-        elif isinstance(value, int | float | str) or value is None:
+        elif isinstance(value, str):
+            # quoted, to tell e.g. "1" and "None" from 1 and None
+            value = repr(value)
+        elif isinstance(value, int | float) or value is None:
             value = str(value)
         elif hasattr(value, "ufl_signature"):
             value = value.ufl_signature
